@@ -1,2 +1,3 @@
 //! Monitors and instrumented I/O shared by the upper-layer checks.
 pub mod transport;
+pub mod net;
